@@ -47,7 +47,8 @@ MANIFEST = {
             "the held hash, all inside the jail), publish_atomic, staging_refines (list reply = current + staged, for every "
             "verified delta naming each URI once, by induction over the elements with an invariant on the staged set), "
             "rrdp_update_preserves, jails_disjoint_iff (iff-characterisation by '/'-segment prefixes and `ta`), isolation for "
-            "disjoint jails, remove_exact, with an invariant proved for every request history; the negation for nested handles is "
+            "disjoint jails, isolation_history, list_reply_is_current_content, remove_exact, with an invariant proved for every "
+            "request history; the negation for nested handles is "
             "proved with a witness that replays on the implementation (open finding); the former split of equal URIs into two "
             "object keys (upper-case scheme) is fixed and kept as a counter-model of the pinned tree. The "
             "model is tied to the code by lock-step differential execution against the real RepositoryManager and by evaluating "
